@@ -281,6 +281,63 @@ theorem warm_eq_fresh_many_partial {α : Type} (ar : Registry → VExpr → α) 
     partOf i (outputsN (xstep lg ar) s ops) = xfreshOutputs lg ar (s i).reg (partOf i ops) := by
   rw [outputsN_part, fouts_xstep, xwarm_eq_fresh_partial lg ar h _ hc]
 
+/-! ### WHICH exception a failing query raises: an uninterpreted function of (registry, query) -/
+
+/-- **the exception a failing query raises is decided by the registry alone**: for EVERY function `ed`
+giving the detail of a failure (the exception class) over a registry, a query asked in any state that
+satisfies the invariant — whatever its memo tables hold: the same failing question asked before, once or
+many times, other questions in between — fails exactly when it fails on a freshly built database over the
+same registry, and with the same detail; the step leaves the registry as it was -/
+theorem error_detail_ignores_caches {α δ : Type} (ar : Registry → VExpr → α) (ed : Registry → Query → δ)
+    {s : CState} (h : Inv lg s) (q : Query) :
+    (ystep lg ar ed s (.base (.query q))).2 = (ystep lg ar ed (CState.fresh s.reg) (.base (.query q))).2
+    ∧ (ystep lg ar ed s (.base (.query q))).1.reg = s.reg := by
+  have hf : (answer lg (CState.fresh s.reg) q).2 = spec lg s.reg q := rfl
+  refine ⟨?_, by simp only [ystep, xstep, cstep, answer_reg]⟩
+  simp only [ystep, xstep, cstep, detailOf, refinement_partial lg h q, hf]
+  rfl
+
+/-- … so two sessions over the same registry report the same failure, with the same detail, to the same
+question — a memo hit and a memo miss cannot be told apart -/
+theorem error_detail_same_registry {α δ : Type} (ar : Registry → VExpr → α) (ed : Registry → Query → δ)
+    {s s' : CState} (h : Inv lg s) (h' : Inv lg s') (hr : s.reg = s'.reg) (q : Query) :
+    (ystep lg ar ed s (.base (.query q))).2 = (ystep lg ar ed s' (.base (.query q))).2 := by
+  rw [(error_detail_ignores_caches lg ar ed h q).1, (error_detail_ignores_caches lg ar ed h' q).1, hr]
+
+/-- **warm = fresh for every history, failure details included, for every meaning of `ar` and `ed`**:
+each step of any interleaving of registrations, queries (asked repeatedly, failing or not) and arithmetic
+questions has the outcome — and, when it is a failing query, the failure detail — it has on a database
+freshly built from the registrations made before it -/
+theorem ywarm_eq_fresh_partial {α δ : Type} (ar : Registry → VExpr → α) (ed : Registry → Query → δ) {s : CState}
+    (h : Inv lg s) (ops : List XOp) (hc : ops.all (xopClean lg) = true) :
+    youtputs lg ar ed s ops = yfreshOutputs lg ar ed s.reg ops := by
+  induction ops generalizing s with
+  | nil => rfl
+  | cons op ops ih =>
+    simp only [List.all_cons, Bool.and_eq_true] at hc
+    have hi := xstep_preserves_Inv lg ar h hc.1
+    simp only [youtputs, yfreshOutputs]
+    have e1 : (ystep lg ar ed s op).1 = (xstep lg ar s op).1 := rfl
+    rw [e1, ih hi hc.2, xstep_reg_fresh]
+    congr 1
+    cases op with
+    | arith e => rfl
+    | base op =>
+      cases op with
+      | query q => exact (error_detail_ignores_caches lg ar ed h q).1
+      | reg op =>
+        simp only [ystep, xstep, detailOf, (cstep_reg_out lg s op).1, (cstep_reg_out lg (CState.fresh s.reg) op).1]
+        rfl
+
+/-- … and in a family of private databases alive at the same time: the outcomes and failure details of
+the steps addressed to database `i` are those of a database freshly built from the registrations
+addressed to `i` -/
+theorem ywarm_eq_fresh_many_partial {α δ : Type} (ar : Registry → VExpr → α) (ed : Registry → Query → δ)
+    (s : Nat → CState) (i : Nat) (h : Inv lg (s i)) (ops : List (Nat × XOp))
+    (hc : (partOf i ops).all (xopClean lg) = true) :
+    partOf i (outputsN (ystep lg ar ed) s ops) = yfreshOutputs lg ar ed (s i).reg (partOf i ops) := by
+  rw [outputsN_part, fouts_ystep, ywarm_eq_fresh_partial lg ar ed h _ hc]
+
 /-- a history with three arithmetic questions (1 = length, 2 = m, 3 = cm, 5 = category): `2 m * (3 cm)^2`,
 `2 m * (3 cm)^3`, then the first again -/
 def arithHistory : List XOp :=
